@@ -37,7 +37,16 @@ def execute(case):
         has_handler = prog["handler"] != "none"
 
         def handler(exc):
-            log(ev="handler", k=getattr(exc, "k", -1), truthy=prog["handler"] == "truthy")
+            ks = []
+
+            def leaves(x):
+                if isinstance(x, BaseExceptionGroup):
+                    for y in x.exceptions:
+                        leaves(y)
+                elif hasattr(x, "k"):
+                    ks.append(x.k)
+            leaves(exc)
+            log(ev="handler", k=ks[0] if ks else -1, truthy=prog["handler"] == "truthy")
             return prog["handler"] == "truthy"
 
         if case.get("seed", 0) % 2:
@@ -69,6 +78,14 @@ def execute(case):
                     if t["beh"] == "raise":
                         x = Boom("bg")
                         x.k = k
+                        if (case.get("seed", 0) + k) % 3 == 0:
+                            # the exception escapes from the teardown of the task's own context instead of from its body: still the task's
+                            # exception, still one call of the handler
+                            def failing_cleanup():
+                                log(ev="bg.raise", k=k, hasHandler=has_handler)
+                                raise x
+                            current_context().add_teardown_callback(failing_cleanup)
+                            return
                         log(ev="bg.raise", k=k, hasHandler=has_handler)
                         raise x
                 except C:
